@@ -138,9 +138,18 @@ fn call_scoped_variable(rng: &mut Rng, out: &mut Out) {
     use tree_sitter_graph::{ExecutionConfig, Identifier, NoCancellation, Variables};
     let arg = *rng.pick(&["plain", "with \"quotes\"", "back\\slash", "tab\there", "é ü", "\"", "a\\\"b", ""]);
     let name = *rng.pick(&["zq_name", "lit", "x-y"]);
-    let written = format!("(zq-first @x {:?}).{}", arg, name);
-    let text = format!("(identifier) @x {{ node {} attr ({}) seen = #true }}\n", written, written);
-    let source = "alpha\nbeta\n";
+    // or: the scope is an optional / list-element capture that is present (written without its
+    // quantifier, as everywhere in a block)
+    let (written, text, source) = match rng.below(3) {
+        0 => {
+            let w = format!("@x.{}", name);
+            (w.clone(), format!("(expression_statement (identifier)? @x) {{ if some @x {{ node {} attr ({}) seen = #true }} }}\n", w, w), "alpha\nbeta\n")
+        }
+        _ => {
+            let w = format!("(zq-first @x {:?}).{}", arg, name);
+            (w.clone(), format!("(identifier) @x {{ node {} attr ({}) seen = #true }}\n", w, w), "alpha\nbeta\n")
+        }
+    };
     let tree = parse_python(source);
     let ti = TreeInfo::new(&tree);
     let file = match exec::load(&text) {
